@@ -290,17 +290,19 @@ def toPatRoot (X : TP) (d : Bool) : GoNode → Option Pat
 /-! ## the fragments -/
 
 mutual
-/-- the smallest tier whose theorem speaks about this tree (given that `toPat` succeeds and every direction bit
-    is left-to-right): 1 = empty, nothing, anchors, One/Notone/Set, Multi, Concatenate, Alternate, Capture, Group;
-    2 = + single-character loops; 3 = + Atomic, lookahead; 4 = + Loop/Lazyloop, Ref, conditionals, lookbehind;
-    9 = `UpdateBumpalong`, ECMAScript boundaries, balancing groups, unknown nodes -/
+/-- the smallest tier whose theorem speaks about this tree (given that `toPat` succeeds):
+    1 = empty, nothing, anchors, One/Notone/Set, Multi, Concatenate, Alternate, Capture, Group;
+    2 = + single-character loops; 3 = + Atomic, lookahead; 4 = + Loop/Lazyloop (general loops, any body);
+    5 = + `UpdateBumpalong`; 6 = + Ref, BackRefCond, ExprCond; 7 = + lookbehind (and, in `InFrag`, the tree option
+    RightToLeft); 8 = + ECMAScript boundaries; 9 = balancing groups, unknown nodes -/
 def tier : GoNode → Nat
   | .empty => 1
-  | .bare t => if t == opUpdateBumpalong || t == opECMABoundary || t == opNonECMABoundary then 9 else 1
+  | .bare t =>
+    if t == opUpdateBumpalong then 5 else if t == opECMABoundary || t == opNonECMABoundary then 8 else 1
   | .char _ _ _ _ => 1
   | .set _ _ _ => 1
   | .multi _ _ _ => 1
-  | .ref _ _ _ => 4
+  | .ref _ _ _ => 6
   | .charloop _ _ _ _ _ _ => 2
   | .setloop _ _ _ _ _ _ => 2
   | .concat cs => tierList cs
@@ -308,13 +310,13 @@ def tier : GoNode → Nat
   | .loop _ _ _ c => max 4 (tier c)
   | .capture _ n c => if n == -1 then tier c else 9
   | .group c => tier c
-  | .poslook c => if lookDir c == some false then max 3 (tier c) else max 4 (tier c)
-  | .neglook c => if lookDir c == some false then max 3 (tier c) else max 4 (tier c)
+  | .poslook c => if lookDir c == some false then max 3 (tier c) else max 7 (tier c)
+  | .neglook c => if lookDir c == some false then max 3 (tier c) else max 7 (tier c)
   | .atomic c => max 3 (tier c)
-  | .backrefcond1 _ y => max 4 (tier y)
-  | .backrefcond2 _ y n => max 4 (max (tier y) (tier n))
-  | .exprcond2 c y => max 4 (max (tier c) (tier y))
-  | .exprcond3 c y n => max 4 (max (tier c) (max (tier y) (tier n)))
+  | .backrefcond1 _ y => max 6 (tier y)
+  | .backrefcond2 _ y n => max 6 (max (tier y) (tier n))
+  | .exprcond2 c y => max 6 (max (tier c) (tier y))
+  | .exprcond3 c y n => max 6 (max (tier c) (max (tier y) (tier n)))
   | .other _ => 9
 def tierList : List GoNode → Nat
   | [] => 1
